@@ -431,6 +431,17 @@ func (fs *nullfs) Read(r *go9p.SrvReq) {
 		select {
 		case <-ch:
 			time.Sleep(time.Duration(count%4) * 30 * time.Microsecond)
+			if count%4 == 3 {
+				// the late answer given the other documented way: the reply it was handed is filled in place
+				if go9p.InitRread(r.Rc, count) == nil {
+					for i := range r.Rc.Data {
+						r.Rc.Data[i] = byte(i)
+					}
+					go9p.SetRreadCount(r.Rc, count)
+					r.Respond()
+					return
+				}
+			}
 			r.RespondError(&go9p.Error{Err: "interrupted", Errornum: 4})
 		case <-time.After(3 * time.Millisecond):
 			fs.mu.Lock()
